@@ -24,30 +24,37 @@ pub mod sctp;
 pub mod media;
 pub mod sdp;
 pub mod dtlslive;
+pub mod srtp;
 
 // ---------------------------------------------------------------------------------------------
 // counting allocator
 pub struct Counting;
-thread_local! { static BYTES: Cell<u64> = const { Cell::new(0) }; }
+thread_local! { static BYTES: Cell<u64> = const { Cell::new(0) }; static FREED: Cell<u64> = const { Cell::new(0) }; }
 unsafe impl std::alloc::GlobalAlloc for Counting {
     unsafe fn alloc(&self, l: std::alloc::Layout) -> *mut u8 {
         let _ = BYTES.try_with(|b| b.set(b.get() + l.size() as u64));
         unsafe { std::alloc::System.alloc(l) }
     }
-    unsafe fn dealloc(&self, p: *mut u8, l: std::alloc::Layout) { unsafe { std::alloc::System.dealloc(p, l) } }
+    unsafe fn dealloc(&self, p: *mut u8, l: std::alloc::Layout) {
+        let _ = FREED.try_with(|b| b.set(b.get() + l.size() as u64));
+        unsafe { std::alloc::System.dealloc(p, l) }
+    }
     unsafe fn alloc_zeroed(&self, l: std::alloc::Layout) -> *mut u8 {
         let _ = BYTES.try_with(|b| b.set(b.get() + l.size() as u64));
         unsafe { std::alloc::System.alloc_zeroed(l) }
     }
     unsafe fn realloc(&self, p: *mut u8, l: std::alloc::Layout, new: usize) -> *mut u8 {
         if new > l.size() { let _ = BYTES.try_with(|b| b.set(b.get() + (new - l.size()) as u64)); }
+        else { let _ = FREED.try_with(|b| b.set(b.get() + (l.size() - new) as u64)); }
         unsafe { std::alloc::System.realloc(p, l, new) }
     }
 }
 #[global_allocator]
 static GLOBAL: Counting = Counting;
-pub fn alloc_reset() { BYTES.with(|b| b.set(0)); }
+pub fn alloc_reset() { BYTES.with(|b| b.set(0)); FREED.with(|b| b.set(0)); }
 pub fn alloc_read() -> u64 { BYTES.with(|b| b.get()) }
+/// bytes allocated minus bytes freed on this thread since the last `alloc_reset` (what a call sequence retains)
+pub fn alloc_retained() -> i64 { BYTES.with(|b| b.get()) as i64 - FREED.with(|b| b.get()) as i64 }
 
 // ---------------------------------------------------------------------------------------------
 // watchdog for genuine non-termination: if one call runs longer than HANG_LIMIT the process writes a
@@ -250,6 +257,7 @@ fn replay(case: &str) {
     if !done { done = media::replay_special(&mut run, stream, &args); }
     if !done { done = sdp::replay_special(&mut run, stream, &args); }
     if !done { done = dtlslive::replay_special(&mut run, stream, &args); }
+    if !done { done = srtp::replay_special(&mut run, stream, &args); }
     if !done { println!("unknown stream {stream}"); }
     for f in &run.fails { println!("ORACLE-FAIL {} :: {}", f.signature, f.detail); }
     let _ = std::fs::remove_dir_all("/tmp/c07-replay");
@@ -272,6 +280,7 @@ pub fn run(args: &Args) {
     media::special(&mut run, &mut rng.fork(), args.tier_thorough);
     sdp::special(&mut run, &mut rng.fork(), args.tier_thorough);
     dtlslive::special(&mut run, &mut rng.fork(), args.tier_thorough);
+    srtp::special(&mut run, &mut rng.fork(), args.tier_thorough);
     run.notes.insert("targets".into(), serde_json::json!(targets.iter().map(|t| t.stream).collect::<Vec<_>>()));
     run.notes.insert("type_sizes".into(), rtp::type_sizes());
     run.notes.insert("type_sizes_media".into(), media::type_sizes());
